@@ -298,15 +298,15 @@ class ASTNode(DataClassSerializeMixin):
         return new_obj
 
     def __post_serialize__(self, d: dict[str, Any]) -> dict[str, Any]:
-        # Run first, otherwise _children will be dropped from the output
-        out = super(ASTNode, self).__post_serialize__(d)
-
         if (
             self._get_serialization_options().get(AST_SERIALIZE_DIALECT_KEY)
             == ASTSerializationDialects.AST_EXPLORER
         ):
-            out["_children"] = []
-            out["_children"].extend([f.name for f in get_cls_child_fields(self.__class__)])
+            # Add before the base class assembles the output, so that the key
+            # takes part in the sorting when SORT_KEYS is requested
+            d["_children"] = [f.name for f in get_cls_child_fields(self.__class__)]
+
+        out = super(ASTNode, self).__post_serialize__(d)
 
         if (
             self._get_serialization_options().get(AST_SERIALIZE_DIALECT_KEY)
